@@ -1,8 +1,16 @@
 #!/bin/sh
-# tools/seedtest.sh <seed dir> <ID> [tier]   apply seeded/<dir>/patch.diff to /repo, run ./check <ID>, undo
-cd /repo || exit 2
-[ -z "$(git status --porcelain)" ] || { echo "/repo not clean"; exit 2; }
+# tools/seedtest.sh <seed dir> <ID> [tier]
+# Runs ./check <ID> against a seeded change WITHOUT touching /repo (other work may be building against it):
+# uses the integration clone /tmp/vt (git clone of /verif, harness pointed at the worktree /tmp/vt-repo).
+# Create them with:  git clone /verif /tmp/vt; git -C /repo worktree add /tmp/vt-repo HEAD;
+#                    sed -i 's#path = "/repo"#path = "/tmp/vt-repo"#' /tmp/vt/harness/Cargo.toml
+set -e
+cd /tmp/vt-repo
+git checkout -q --detach "$(git -C /repo rev-parse HEAD)"
+git checkout -q -- .
 git apply "/verif/seeded/$1/patch.diff" || { echo "patch does not apply"; exit 2; }
-cd /verif && ./check "$2" --tier "${3:-quick}"; rc=$?
-git -C /repo checkout -- .
+cd /tmp/vt
+set +e
+NV_REPO=/tmp/vt-repo ./check "$2" --tier "${3:-quick}"; rc=$?
+git -C /tmp/vt-repo checkout -q -- .
 echo "seed $1 on $2: exit $rc"
